@@ -96,7 +96,11 @@ MethodMatches(b, m) == b.method = m \/ b.method = "*"
 Tpl(b) == <<b.segs, b.verb>>
 
 MethodsOf(table, S) == {b.method : b \in {c \in table : Tpl(c) \in S}}
-Hit(table, t, req) == {b \in table : Tpl(b) = t /\ MethodMatches(b, req.method)}
+\* "that template's binding for its HTTP method": the binding whose method EQUALS the request's; a wildcard
+\* binding (custom kind "*") of the same template serves only the methods that have no binding of their own
+Hit(table, t, req) ==
+    LET exact == {b \in table : Tpl(b) = t /\ b.method = req.method} IN
+    IF exact # {} THEN exact ELSE {b \in table : Tpl(b) = t /\ b.method = "*"}
 
 \* outcome o is what the property prescribes when the request is resolved against template t
 OkFor(table, t, req, o) ==
